@@ -28,7 +28,7 @@ STUB_LINES = (
 class Harness:
     def __init__(self, name, crate="hk", features=(), tiers=("quick", "thorough"), covers=0,
                  timeout=900, mem_gb=8, what="", bounds="", sched=False, extra=(), expect_stubs=True,
-                 known=None):
+                 known=None, unwindset=None):
         self.name = name            # module::function, used with --exact
         self.crate = crate          # hk (plain pal crate) or hs (instrumented drop-in)
         self.features = tuple(features)
@@ -41,6 +41,10 @@ class Harness:
         self.extra = tuple(extra)
         self.expect_stubs = expect_stubs
         self.known = known          # id of an open known finding this harness must reproduce
+        # per-loop unwinding bounds: {"substr1&substr2": n} - every loop whose (mangled) function name
+        # contains all the substrings gets bound n instead of the harness-wide one; the unwinding
+        # assertion of that loop stays on, so a too-small bound is reported (exit 2), never hidden
+        self.unwindset = dict(unwindset or {})
 
     @property
     def short(self):
@@ -197,6 +201,11 @@ def run_harness(h, logdir, playback=False):
         cmd += ["-Z", "concrete-playback", "--concrete-playback=print"]
     t0 = time.time()
     timed_out = False
+    uw_note = ""
+    if h.unwindset:
+        labels, uw_note = loop_labels(h, cmd, cdir, log)
+        if labels:
+            cmd += ["-Z", "unstable-options", "--cbmc-args", "--unwindset", ",".join("%s:%d" % kv for kv in labels)]
     with open(log, "w") as lf:
         p = subprocess.Popen(cmd, cwd=cdir, env=ENV, stdout=lf, stderr=subprocess.STDOUT,
                              preexec_fn=_limits(h.mem_gb * 1.6 + 4))
@@ -218,7 +227,44 @@ def run_harness(h, logdir, playback=False):
             "unreachable": parsed["unreachable"], "success": parsed["success"],
             "covers": [{"desc": c["desc"], "status": c["status"]} for c in parsed["covers"]],
             "stubs": parsed["stubs"], "functions": parsed["functions"], "log": log, "what": h.what,
-            "bounds": h.bounds, "text": text if playback else None}
+            "bounds": h.bounds + ((" [" + uw_note + "]") if uw_note else ""), "text": text if playback else None}
+
+
+def loop_labels(h, cmd, cdir, log):
+    """Phase 1 for harnesses with per-loop bounds: let Kani build the goto binary (the CBMC call is
+    given --show-loops, which ends it immediately), list its loops with goto-instrument and match the
+    patterns of h.unwindset against the mangled loop names of THIS build."""
+    r = sh(cmd + ["--verbose", "-Z", "unstable-options", "--cbmc-args", "--show-loops"], cwd=cdir, env=ENV)
+    with open(log + ".loops", "w") as f:
+        f.write(r.stdout)
+    m = None
+    for line in r.stdout.split("\n"):
+        if "Running: `cbmc " in line:
+            for tok in line.split():
+                if tok.endswith(".out") or tok.endswith(".out`"):
+                    m = tok.rstrip("`")
+    if not m or not os.path.exists(m):
+        return [], "per-loop bounds not applied (goto binary not found)"
+    r2 = sh(["goto-instrument", "--show-loops", m])
+    names = re.findall(r"^Loop (\S+):", r2.stdout, re.M)
+    labels = []
+    for pat, n in h.unwindset.items():
+        hit = [x for x in names if _loop_match(pat, x)]
+        labels += [(x, n) for x in hit]
+    note = "per-loop bounds: " + "; ".join("%s -> %d (%d loops)" % (pat, n, len([1 for x in names if _loop_match(pat, x)]))
+                                             for pat, n in h.unwindset.items())
+    return labels, note
+
+
+def _loop_match(pat, label):
+    """pattern parts joined by '&'; a part starting with '.' must be the loop-number suffix"""
+    for q in pat.split("&"):
+        if q.startswith("."):
+            if not label.endswith(q):
+                return False
+        elif q not in label:
+            return False
+    return True
 
 
 def run_many(harnesses, logdir, budget_gb=None, max_par=12, order_seed=0):
